@@ -362,6 +362,25 @@ pub fn erroneous_projects() -> Vec<Project> {
             expected_stdout: None,
         });
     }
+    // one package, one loop of the compiler reporting >= 3 diagnostics: their order is observable
+    for (which, src) in [
+        ("missing-trait-methods", "package Main\n\ntrait Tr { fn a(Self) -> int32; fn b(Self) -> int32; fn c(Self) -> int32; fn d(Self) -> int32; fn e(Self) -> int32; }\nstruct S { v: int32 }\nimpl Tr for S { }\nfn main() { () }\n"),
+        ("extra-trait-methods", "package Main\n\ntrait Tr { fn a(Self) -> int32; }\nstruct S { v: int32 }\nimpl Tr for S { fn a(self: S) -> int32 { 1 } fn p(self: S) -> int32 { 1 } fn q(self: S) -> int32 { 1 } fn r(self: S) -> int32 { 1 } fn s(self: S) -> int32 { 1 } }\nfn main() { () }\n"),
+        ("wrong-trait-method-signatures", "package Main\n\ntrait Tr { fn a(Self) -> int32; fn b(Self) -> int32; fn c(Self) -> int32; fn d(Self) -> int32; }\nstruct S { v: int32 }\nimpl Tr for S { fn a(self: S) -> bool { true } fn b(self: S) -> bool { true } fn c(self: S) -> bool { true } fn d(self: S) -> bool { true } }\nfn main() { () }\n"),
+        ("unknown-names", "package Main\n\nfn main() { let r = n1 + n2 + n3 + n4 + n5; string_println(int32_to_string(r)) }\n"),
+        ("unknown-types", "package Main\n\nfn f(a: T1, b: T2, c: T3, d: T4) -> T5 { a }\nfn main() { () }\n"),
+        ("missing-struct-fields", "package Main\n\nstruct S { a: int32, b: int32, c: int32, d: int32, e: int32 }\nfn main() { let s = S { }; let t = S { p: 1, q: 2, r: 3, a: 1, b: 2, c: 3, d: 4, e: 5 }; () }\n"),
+        ("ambiguous-constructors", "package Main\n\nenum E1 { K, A1 }\nenum E2 { K, A2 }\nenum E3 { K, A3 }\nenum E4 { K, A4 }\nfn main() { let x = K; () }\n"),
+        ("non-exhaustive-match", "package Main\n\nenum E { A, B, C, D, F }\nfn f(e: E) -> int32 { match e { A => 1 } }\nfn g(e: E, h: E) -> int32 { match (e, h) { (A, A) => 1 } }\nfn main() { () }\n"),
+        ("errors-in-several-functions", "package Main\n\nfn z() -> int32 { true }\nfn y() -> int32 { \"s\" }\nfn x() -> bool { 1 }\nfn w() -> string { 2 }\nfn main() { () }\n"),
+        ("errors-in-several-impls", "package Main\n\nstruct S { v: int32 }\nstruct T { v: int32 }\ntrait Tr { fn a(Self) -> int32; }\nimpl Tr for S { fn a(self: S) -> int32 { true } }\nimpl Tr for T { fn a(self: T) -> int32 { \"s\" } }\nimpl S { fn m(self: S) -> int32 { () } }\nimpl T { fn m(self: T) -> int32 { () } }\nfn main() { () }\n"),
+        ("duplicate-definitions", "package Main\n\nfn f() -> int32 { 1 }\nfn f() -> int32 { 2 }\nstruct S { a: int32, a: int32 }\nstruct S { b: int32 }\nenum E { A, A }\ntrait Tr { fn a(Self) -> int32; }\ntrait Tr { fn b(Self) -> int32; }\nfn main() { () }\n"),
+        ("duplicate-impls", "package Main\n\ntrait Tr { fn a(Self) -> int32; }\nimpl Tr for int32 { fn a(self: int32) -> int32 { 1 } }\nimpl Tr for int32 { fn a(self: int32) -> int32 { 2 } }\nimpl Tr for bool { fn a(self: bool) -> int32 { 1 } }\nimpl Tr for bool { fn a(self: bool) -> int32 { 2 } }\nimpl Tr for string { fn a(self: string) -> int32 { 1 } }\nimpl Tr for string { fn a(self: string) -> int32 { 2 } }\nfn main() { () }\n"),
+        ("unsatisfied-bounds", "package Main\n\ntrait T1 { fn a(Self) -> int32; }\ntrait T2 { fn b(Self) -> int32; }\ntrait T3 { fn c(Self) -> int32; }\nfn need[U: T1 + T2 + T3](u: U) -> int32 { 1 }\nfn main() { let r = need(1) + need(true) + need(\"s\"); () }\n"),
+        ("unknown-imports", "package Main\nimport P1\nimport P2\nimport P3\nimport P4\n\nfn main() { () }\n"),
+    ] {
+        out.push(Project { name: format!("many-diagnostics-{}", which), files: vec![("main.gom".into(), src.into())], expected_stdout: None });
+    }
     out
 }
 
